@@ -913,6 +913,16 @@ def observe_readonly(ctx, case, w, seed, stepno):
                 o.atoms_ids
             elif what == "atoms":
                 list(o.atoms)
+                if w.meta[j]["kind"] == "mol":
+                    # the views an iteration hands out are KEPT (list(mol), sorted(mol, …)): the i-th one is a live view of
+                    # the i-th atom, whatever the iterator did afterwards (seed C18-12: one Atom wrapper re-pointed at
+                    # every step — every kept view ends up on the last atom)
+                    kept = list(o)
+                    gs = hg.gro_atoms(o)
+                    if len(kept) == len(gs) and any(v.atom_gro is not g for v, g in zip(kept, gs)):
+                        k = next(k for k, (v, g) in enumerate(zip(kept, gs)) if v.atom_gro is not g)
+                        ctx.oracle_fail("c18:view:kept-iteration-view-is-not-of-its-atom", case,
+                                        {"step": stepno, "object": j, "view": k, "atoms": len(gs)})
             else:
                 len(o)
                 str(o)
